@@ -353,9 +353,9 @@ func (e *exec) loop() {
 			e.res.HorizonHit = true
 			return
 		}
-		if !e.frozen && e.o.LeakOracle && e.mainDone && e.userCnt == 0 {
-			e.frozen = true
-		}
+		// (re-evaluated at every step: an attempt that was started at the very instant the execution
+		// returned may enter user code after the caller has finished; time moves again while it runs)
+		e.frozen = e.o.LeakOracle && e.mainDone && e.userCnt == 0
 		opts, curEnabled := e.options()
 		if len(opts) == 0 {
 			if e.advance() {
